@@ -126,6 +126,15 @@ check("C08", "other",
       E2_NOTE + " Additionally trusts lib/miniregex.py (capture semantics; validated natively on concrete lines each run).",
       E2_TECH, "E2", "DESIGN.md §3 C08")
 
+check("C09", "other",
+      "Partial: for one-line outputs. On the MIR of Outcome::generate_testcase (real escaper) composed with LineParser, "
+      "ExpectationMaker::parse and the parsed rule's matches(): the text written for an output line parses back to the same command, "
+      "no exit code and one quantifier-free expectation that matches that line — for lines u ++ S (|u| <= 2/3 symbolic over 8 symbols, "
+      "S from 12 syntax-lookalike suffixes), with/without final newline, both escapers, Markdown and Cram line-parser modes; plus "
+      "max_backtick_size >= every line-leading backtick run. Seven collision classes are genuine defects recorded in known_findings.json. "
+      "Multi-line outputs, document-level rendering and non-zero exit codes are outside.",
+      E2_NOTE + " Additionally trusts lib/miniregex.py.", E2_TECH, "E2", "DESIGN.md §3 C09")
+
 NA_LIST = [
     ("C07", "Cram parser: every clause is about string contents inside one regex-calling function; out of reach of Kani (heap/regex) and of control-flow-only MIR execution."),
     ("C12", "Shell-state carry-over is implemented by a bash script; no encoding of bash semantics is available here."),
